@@ -290,6 +290,9 @@ type consOut struct {
 	orig        []byte
 	mustFail    string // non-empty: the constructor must fail, for this reason
 	expectPanic bool
+	// C14: what the model says a derived Schnorr key must expose
+	modelPt *ref.Pt  // the curve point the x-only key was derived from
+	modelD  *big.Int // the private scalar the Schnorr private key was derived from
 }
 
 func (w *World) opKeyConstruct() {
@@ -319,6 +322,9 @@ func (w *World) opKeyConstruct() {
 			})
 		} else {
 			c.desc = fmt.Sprintf("NewSchnorrPrivateKey(%x)", b)
+			if c.mustFail == "" {
+				c.modelD = ref.OS2IP(b)
+			}
 			c.po = protect(func() {
 				k, err := bitcoin.NewSchnorrPrivateKey(b)
 				c.err = err
@@ -377,6 +383,10 @@ func (w *World) opKeyConstruct() {
 			})
 		} else {
 			c.desc = fmt.Sprintf("NewSchnorrPublicKeyFromPoint(p%d)", a)
+			if w.init[a] && !w.mp[a].Inf {
+				m := w.mp[a]
+				c.modelPt = &m
+			}
 			c.po = protect(func() {
 				k, err := bitcoin.NewSchnorrPublicKeyFromPoint(w.points[a])
 				c.err = err
@@ -430,6 +440,7 @@ func (w *World) opKeyConstruct() {
 		src := privs[w.t.Choose("ops", "kc.from", len(privs))]
 		c.desc = fmt.Sprintf("NewSchnorrPrivateKeyFromECDSA(key%d)", src)
 		c.po = protect(func() {
+			c.modelD = ref.OS2IP(w.keys[src].priv.Bytes())
 			k := bitcoin.NewSchnorrPrivateKeyFromECDSA(w.keys[src].priv)
 			if k != nil {
 				c.k = &keyEntry{kind: "spriv", how: "NewSchnorrPrivateKeyFromECDSA", spriv: k}
@@ -459,6 +470,11 @@ func (w *World) opKeyConstruct() {
 		}
 		c.supplied, c.orig = xb, append([]byte(nil), xb...)
 		c.desc = fmt.Sprintf("NewSchnorrPublicKey(%x)", xb)
+		if c.mustFail == "" {
+			if m, ok := ref.LiftX(ref.OS2IP(xb), false); ok {
+				c.modelPt = &m
+			}
+		}
 		c.po = protect(func() {
 			k, err := bitcoin.NewSchnorrPublicKey(xb)
 			c.err = err
@@ -475,6 +491,9 @@ func (w *World) opKeyConstruct() {
 		src := pubs[w.t.Choose("ops", "kc.from", len(pubs))]
 		c.desc = fmt.Sprintf("NewSchnorrPublicKeyFromECDSA(key%d)", src)
 		c.po = protect(func() {
+			if m, derr := ref.Decode(w.keys[src].pub.Bytes()); derr == nil && !m.Inf {
+				c.modelPt = &m
+			}
 			k := bitcoin.NewSchnorrPublicKeyFromECDSA(w.keys[src].pub)
 			if k != nil {
 				c.k = &keyEntry{kind: "spub", how: "NewSchnorrPublicKeyFromECDSA", spub: k}
@@ -578,9 +597,70 @@ func (w *World) opKeyConstruct() {
 		// validKey (inside addKey) reports the invalid object that escaped
 		w.r.Probe("constructor_accepted_input_that_must_fail")
 	}
+	w.checkSchnorrDerivation(c)
 	idx := w.addKey(c.k)
 	if c.supplied != nil {
 		w.trackBuf(c.supplied, "supplied:"+name, idx)
+	}
+}
+
+// checkSchnorrDerivation: C14 - a Schnorr key derived from any ECDSA key,
+// byte string or curve point (whatever its projective representative and
+// the history that produced it) exposes the even-y point, its x coordinate,
+// and a signing scalar consistent with that point.
+func (w *World) checkSchnorrDerivation(c *consOut) {
+	k := c.k
+	name := c.desc[:strings.IndexByte(c.desc, '(')]
+	po := protect(func() {
+		switch {
+		case k.kind == "spub" && c.modelPt != nil:
+			even := *c.modelPt
+			if even.IsYOdd() {
+				even = even.Neg()
+				w.r.Probe("schnorr_pub_from_odd_y")
+			} else {
+				w.r.Probe("schnorr_pub_from_even_y")
+			}
+			if got := k.spub.Bytes(); !bytes.Equal(got, ref.I2OSP32(even.X)) {
+				w.r.Violate("C14", "schnorr-key-x", name, w.step, "%s: Bytes()=%x, the x coordinate of the source point is %x", c.desc, got, ref.I2OSP32(even.X))
+			}
+			if got := k.spub.Point().UncompressedBytes(); !bytes.Equal(got, even.Uncompressed()) {
+				w.r.Violate("C14", "schnorr-key-point", name, w.step, "%s: Point()=%x, the even-y point with the source's x is %x", c.desc, got, even.Uncompressed())
+			}
+		case k.kind == "spriv" && c.modelD != nil && c.modelD.Sign() > 0 && c.modelD.Cmp(ref.N) < 0:
+			q := ref.BaseMul(c.modelD)
+			even := q
+			if q.IsYOdd() {
+				even = q.Neg()
+				w.r.Probe("schnorr_priv_from_odd_y")
+			} else {
+				w.r.Probe("schnorr_priv_from_even_y")
+			}
+			pk := k.spriv.PublicKey()
+			if got := pk.Bytes(); !bytes.Equal(got, ref.I2OSP32(q.X)) {
+				w.r.Violate("C14", "schnorr-key-x", name, w.step, "%s: PublicKey().Bytes()=%x, x(d*G)=%x", c.desc, got, ref.I2OSP32(q.X))
+			}
+			if got := pk.Point().UncompressedBytes(); !bytes.Equal(got, even.Uncompressed()) {
+				w.r.Violate("C14", "schnorr-key-point", name, w.step, "%s: PublicKey().Point()=%x, the even-y point is %x", c.desc, got, even.Uncompressed())
+			}
+			if got := k.spriv.Bytes(); !bytes.Equal(got, ref.I2OSP32(c.modelD)) {
+				w.r.Violate("C14", "schnorr-key-scalar", name, w.step, "%s: Bytes()=%x, want %x", c.desc, got, ref.I2OSP32(c.modelD))
+			}
+			// the signing scalar is consistent with the point: the signature
+			// under zero aux equals the reference signature (sampled: the
+			// model's scalar multiplications are slow)
+			if w.t.Chance("ops", "kc.refsign", 1, 4) {
+				want, ok := ref.BIP340Sign(c.modelD, make([]byte, 32), fixedMsg)
+				got, err := k.spriv.Sign(zeroAux(), fixedMsg, nil)
+				if !ok || err != nil || !bytes.Equal(got, want) {
+					w.r.Violate("C14", "bip340-mismatch", name, w.step, "%s: signature of the derived key under zero aux randomness is %x (err=%v), BIP-340 reference gives %x", c.desc, got, err, want)
+				}
+				w.r.Probe("schnorr_derived_key_reference_signatures")
+			}
+		}
+	})
+	if po.panicked {
+		w.r.Violate("C14", "schnorr-key-panic", name, w.step, "%s: accessors of the derived key panic: %s", c.desc, po.msg)
 	}
 }
 
